@@ -134,5 +134,14 @@ CLAIMS = {
         "note": TRUST + "the reply format table (matches the two captured replies pinned by the tests)",
         "technique": "value-flow range/provenance analysis + constant folding (static analysis)",
     },
+    "C19": {
+        "text": "Value-flow terms show the signature is the last mutation of the posted body and is sha256(path ‖ sorted url-encoded items ‖ "
+                "APP_KEY); bodies carry the stored sessionId and stamp; the login password derivation; get_token returns token/key of the "
+                "very element compared equal to the requested udpid, else CloudError; _post_request explored for budgets 1..3 with the HTTP "
+                "client as oracle (attempts ≤ R, every exceptional exit a CloudError); both byte orders tried with the credentials fetched "
+                "for that order's udpid.",
+        "note": TRUST + "acceptance by the real cloud service; JSON/KeyError on malformed server answers are outside the property",
+        "technique": "value-flow provenance + retry-loop exploration (static analysis)",
+    },
 }
 NOT_APPLICABLE = {}
